@@ -333,6 +333,58 @@ def h_maxvar_gradient(ctx, d, cls='MaxVar'):
         ctx.claim_poly('gradient_%d_obeys_the_product_rule_in_the_prior' % i, grad[0, i], 2 * P * P * L * v0[0, 0] + P * P * g0[0, i])
 
 
+class _PriorWithRvs(PriorUF):
+    """PriorUF plus arbitrary start points for the optimiser."""
+
+    def rvs(self, size=None, random_state=None):
+        ctx = self.ctx
+        n = int(size)
+        if self.d == 1:
+            return ctx.array([ctx.real('pstart%d_0' % i) for i in range(n)])
+        return ctx.array([[ctx.real('pstart%d_%d' % (i, c)) for c in range(self.d)] for i in range(n)])
+
+
+def h_maxvar_acquire(ctx, d, n, cls='MaxVar'):
+    """MaxVar.acquire / ExpIntVar.acquire (grid integration) over an optimiser that may end anywhere: exactly n points, all
+    inside the bounds and all equal to the clipped end point; the threshold is the requested percentile of the evidence."""
+    opt = AnyOptimizer(ctx)
+    names = ['p%d' % i for i in range(d)]
+    if cls == 'ExpIntVar':
+        # np.mgrid needs concrete grid limits: fixed bounds here (different per dimension), the optimiser's end point is symbolic
+        bounds = [(Fraction(0), Fraction(1)), (Fraction(-1), Fraction(1, 2))][:d]
+        fb = [(float(a), float(b)) for a, b in bounds]
+    else:
+        bounds = mk_bounds(ctx, d)
+        fb = bounds
+    with env(ctx, opt):
+        model = GMod(ctx, fb, names)
+        model.noise = ctx.real('noise', 0, None, lo_open=True)
+        model.X = np.array([[0.25] * d, [0.5] * d, [0.75] * d])
+
+        class _Kern:
+            @staticmethod
+            def K(a, b):
+                a, b = np.reshape(a, (-1, d)), np.reshape(b, (-1, d))
+                return ctx.array([[ctx.apply_uf('KERN%d' % d, list(x) + list(y)) for y in b] for x in a])
+        model._gp = type('G', (), {'kern': _Kern})()
+        K = getattr(acqm, cls)
+        kw = dict(integration='grid', d_grid=0.5) if cls == 'ExpIntVar' else {}
+        acq = K(model, prior=_PriorWithRvs(ctx, d), quantile_eps=0.5, n_inits=2, seed=3, **kw)
+        pts = acq.acquire(n, 1)
+    ctx.claim('exactly_n_points', np.shape(pts) == (n, d))
+    for j in range(n):
+        ctx.claim('point_%d_inside_bounds' % j, inside(list(pts[j]), bounds))
+    ctx.claim('two_local_optimisations', len(opt.calls) == 2)
+    for k, (x0, method, b) in enumerate(opt.calls):
+        ctx.claim('start_point_%d_inside_bounds' % k, inside(list(x0), bounds))
+    f = [ctx.real('opt%d_f' % k) for k in range(2)]
+    xs = [[ctx.real('opt%d_x%d' % (k, i)) for i in range(d)] for k in range(2)]
+    ctx.claim('every_point_is_the_clipped_end_point_of_a_best_run',
+              Or(*[And(And(*[f[k] <= f[j] for j in range(2)]),
+                       *[close(pts[r][i], clipv(xs[k][i], *bounds[i])) for i in range(d) for r in range(n)]) for k in range(2)]))
+    ctx.claim('threshold_is_the_requested_quantile_of_the_evidence', close(acq.eps, 2, 1e-9))
+
+
 class RecModel:
     """Recording surrogate: keeps the (parameters, target) pairs it is trained on."""
 
@@ -458,6 +510,12 @@ HARNESSES = [
     H('lcbsc_d2_n2_zero', h_acquire_lcbsc, dict(d=2, n=2, noise='zero'), bounds='LCBSC dim 2, noise variance 0'),
     H('maxvar_gradient_d1', h_maxvar_gradient, dict(d=1), bounds='MaxVar dim 1, one query point, symbolic threshold/noise/prior'),
     H('maxvar_gradient_d2', h_maxvar_gradient, dict(d=2), bounds='MaxVar dim 2, one query point'),
+    H('maxvar_acquire_d1_n2', h_maxvar_acquire, dict(d=1, n=2), bounds='MaxVar.acquire dim 1, 2 points, 2 optimiser starts from the prior'),
+    H('maxvar_acquire_d2_n1', h_maxvar_acquire, dict(d=2, n=1), bounds='MaxVar.acquire dim 2, 1 point'),
+    H('expintvar_acquire_d1_n2', h_maxvar_acquire, dict(d=1, n=2, cls='ExpIntVar'),
+      bounds='ExpIntVar.acquire (grid integration) dim 1, fixed bounds (0,1), 2 points, symbolic optimiser end points'),
+    H('expintvar_acquire_d2_n1', h_maxvar_acquire, dict(d=2, n=1, cls='ExpIntVar'),
+      bounds='ExpIntVar.acquire (grid) dim 2, fixed bounds (0,1)x(-1,0.5), 1 point'),
     H('uniform_d2_n2', h_uniform, dict(d=2, n=2), bounds='UniformAcquisition dim 2, 2 points'),
     H('randmaxvar_metropolis', h_randmaxvar, dict(n_samples=2), bounds='RandMaxVar dim 1, metropolis with 2 samples, 1 acquisition',
       finding='C11/randmaxvar-leaves-bounds', finding_claims=('acquired_point_inside_bounds',)),
